@@ -440,6 +440,16 @@ def run(ctx):
         _c14a.origin_args(ctx, "R03.3")      # explicit ignore files keep their listed order through the discovery arguments as well
     except Skip:
         pass
+    try:
+        from . import c12 as _c12a
+        _c12a.globset_origin(ctx, "R03.9")
+    except Skip:
+        pass
+    try:
+        from . import c11 as _c11a
+        _c11a.ignore_files_consulted(ctx, "R03.4")
+    except Skip:
+        pass
 
     # ---- R03.9 matcher selection
     try:
